@@ -1,5 +1,6 @@
 import VlsModel.Model.Sweep
 import VlsModel.Lemmas.Sweep
+import VlsModel.Lemmas.Wallet
 /-
 C09 — Sweep and second-level HTLC signatures only move funds back to the node.
 
@@ -338,5 +339,47 @@ example : signHtlcTx ⟨253, 333333, true, true⟩ .staticRemoteKey 7
 /-- a zero-fee anchors HTLC-success with an attached fee input/output is signed (SIGHASH_SINGLE|ANYONECANPAY) -/
 example : signHtlcTx ⟨253, 333333, true, true⟩ .anchorsZeroFee 6
       ⟨2, 0, [⟨5, 1, 1⟩, ⟨9, 0, 0⟩], [⟨10000, .revokeable 0 6 0⟩, ⟨500, .other 4⟩]⟩ .received 10000 = .ok := by decide
+
+/-! ## Which scripts a sweep may pay: `Wallet::can_spend` / `allowlist_contains` as decision logic (Model/Wallet.lean) -/
+section WalletLogic
+open VlsModel.Wallet
+
+/-- the two facts `validate_sweep` obtains from the wallet for one output, computed by the model of `impl Wallet for Node`
+    (`Sweep.outOfScript`, which the driver model also uses: the harness sends script descriptors, not facts) -/
+abbrev sweepOutOfScript := Sweep.outOfScript
+
+/-- **C09 (destinations)**: an output that passes `validate_sweep` pays one of the three segwit forms of the node's own
+    key at the request's wallet path, or a listed script, or a p2wpkh / p2pkh / p2tr child at that path of an allowlisted
+    extended key -/
+theorem C09_dest_scripts (style : Style) (allow : List Allowable) (path : List Nat) (s : Wallet.Script)
+    (h : DestOk (sweepOutOfScript style allow path s)) :
+    (path ≠ [] ∧ PathFits style path ∧ SpendableForm s (.account path)) ∨ .script s ∈ allow ∨
+      (path ≠ [] ∧ path.any hardened = false ∧ ∃ j, .xpub j ∈ allow ∧ XpubForm s (xpubKey j path)) := by
+  unfold DestOk sweepOutOfScript Sweep.outOfScript at h
+  rcases h with h | ⟨_, h⟩
+  · exact Or.inl ((canSpend_true style path s).mp h)
+  · have hy : allowlistContains allow s path = .yes := by
+      cases ha : allowlistContains allow s path <;> simp [ha] at h ⊢
+    rcases (allowlistContains_yes allow s path).mp hy with h1 | h2
+    · exact Or.inr (Or.inl h1)
+    · exact Or.inr (Or.inr h2)
+
+/-- every output of a signed sweep, at the level of scripts -/
+theorem C09_sweep_scripts (style : Style) (allow : List Allowable) (path : List Nat) (scripts : List Wallet.Script)
+    (tx : SweepTx) (htx : tx.outs = scripts.map (sweepOutOfScript style allow path))
+    (h : validateSweep true tx = .ok) :
+    ∀ s ∈ scripts,
+      (path ≠ [] ∧ PathFits style path ∧ SpendableForm s (.account path)) ∨ .script s ∈ allow ∨
+        (path ≠ [] ∧ path.any hardened = false ∧ ∃ j, .xpub j ∈ allow ∧ XpubForm s (xpubKey j path)) := by
+  intro s hs
+  have := (validateSweep_ok tx h).2 (sweepOutOfScript style allow path s) (by rw [htx]; exact List.mem_map_of_mem hs)
+  exact C09_dest_scripts style allow path s this
+
+example : DestOk (sweepOutOfScript .native [] [3] (.addr .p2tr (.account [3])))
+    ∧ DestOk (sweepOutOfScript .native [.xpub 2] [3] (.addr .p2pkh (.xpub 2 [3])))
+    ∧ ¬ DestOk (sweepOutOfScript .native [.xpub 2] [3] (.addr .p2wpkh (.foreign 1))) := by
+  unfold DestOk; decide
+
+end WalletLogic
 
 end VlsModel.Props.C09
